@@ -86,9 +86,11 @@ theorem legacyRebase_eq :
     unfold Gen.C03.legacyRebase innerRec sub64 add64
     simp only [wrap64_id h1, wrap64_id h2]
     by_cases hv : m.ver ≥ 1 <;> cases hl : m.logAppend <;> simp [hv]
+    done
   | refine Or.inr (fun blk last m h1 h2 => ?_)
     unfold Gen.C03.legacyRebase innerRec sub64 add64
     simp only [wrap64_id h1, wrap64_id h2]
     by_cases hv : m.ver ≥ 1 <;> cases hl : blk.logAppend <;> simp [hv]
+    done
 
 end Bridge.C03
